@@ -84,6 +84,9 @@ def check(run):
     from . import C11 as _C11
     with R.as_rule('C08.onlyclose'):
         _C11.once(R)             # the Close frame close() builds is written then and there (send() -> exactly one write())
+    R.rule('C08.close', 'the Close payload is the code and the reason (text encoded leniently: close() cannot fail on it)', 3)
+    with R.as_rule('C08.close'):
+        C03.closep(R)
     C09.request_first(R, 'C08.onlyclose')      # a close() at Connected cannot put its Close frame in front of the request
     with R.as_rule('C08.timeout'):
         C15.units(R)             # the loop's wait is computed from poll alone: close_timeout=None / 0 cannot break it
@@ -189,6 +192,14 @@ def writers(R):
              'on_disconnect() stores State.%s before session.close(): while the socket is still open there is a moment with '
              'closing and closed both false (or closed already true) - a send from another thread is written after the Close '
              'frame instead of being refused' % flag, func=q, node=s, construct='on_disconnect: %s before session.close' % flag)
+    # on_disconnect() marks the websocket closed although no closing handshake took place: it is called where the event
+    # stream itself ends (a rejected upgrade, an abandoned generator) - never from a send path, where a transport error would
+    # make run() leave its loop by the is_closed test and report a graceful end
+    cs_ = sorted(set(c_.func.qual for (c_, call_, t_) in R.types.callers.get(q, [])))
+    R.ob('C08.writers', 'on_disconnect is called from feed() only', cs_ == [WS + '.feed'],
+         'on_disconnect() is called from %s: a failing write (or anything but the end of the event stream) marks the '
+         'websocket closed, and the loop of run() ends with Disconnected(graceful=True) without a closing handshake' % cs_,
+         func=q, node=None, construct='on_disconnect callers %s' % cs_)
     vals = {(flag, fold(R, v, c)) for (flag, c, s, v) in allst if c.func.qual == ST + '.__init__'}
     R.ob('C08.writers', 'initial state (False, False)', vals == {('closing', False), ('closed', False)},
          'State.__init__ stores %s' % sorted(vals), func=ST + '.__init__', node=None, construct='initial flags')
